@@ -67,9 +67,12 @@ func checkExport(r io.Reader, err error, text string, data interface{}) {
 // C19: any template text, any reader behaviour, the three report levels, nil reports.
 func VH_C19_export() {
 	text := vrt.String("text")
-	content := vrt.String("content")
-	partial := vrt.String("partial")
+	c1 := vrt.String("chunk1")
+	c2 := vrt.String("chunk2")
+	eofWithData := vrt.Bool("eofWithData")
 	fails := vrt.Bool("fails")
+	content := c1 + c2 // what the reader yields in total when it does not fail
+	vrt.Assume(len(c1) <= 64 && len(c2) <= 64) // chunks fit into any read buffer the library may use
 	em, _ := metric.NewEnvironmental().Decode("CVSS:3.1/AV:N/AC:L/PR:N/UI:N/S:C/C:H/I:H/A:H/E:F/RL:O/RC:R/CR:H/IR:M/AR:L/MAV:A/MAC:X/MPR:L/MUI:R/MS:U/MC:L/MI:X/MA:N")
 	br := NewBase(em.BaseMetrics())
 	tr := NewTemporal(em.TemporalMetrics())
@@ -83,11 +86,11 @@ func VH_C19_export() {
 	checkExport(r3, e3, text, er)
 
 	// from a reader: equivalent to the string export of the reader's full content; a failing reader yields invalid-template
-	r4, e4 := br.ExportWith(vrt.Reader(content, fails, partial))
-	r5, e5 := tr.ExportWith(vrt.Reader(content, fails, partial))
-	r6, e6 := er.ExportWith(vrt.Reader(content, fails, partial))
+	r4, e4 := br.ExportWith(vrt.ChunkReader(c1, c2, eofWithData, fails))
+	r5, e5 := tr.ExportWith(vrt.ChunkReader(c1, c2, eofWithData, fails))
+	r6, e6 := er.ExportWith(vrt.ChunkReader(c1, c2, eofWithData, fails))
 	if fails {
-		vrt.Assert(r4 == nil && only(e4, cvsserr.ErrInvalidTemplate) && r5 == nil && only(e5, cvsserr.ErrInvalidTemplate) && r6 == nil && only(e6, cvsserr.ErrInvalidTemplate), "a failing reader yields the invalid-template sentinel and no output (nothing of the partial read is used)")
+		vrt.Assert(r4 == nil && only(e4, cvsserr.ErrInvalidTemplate) && r5 == nil && only(e5, cvsserr.ErrInvalidTemplate) && r6 == nil && only(e6, cvsserr.ErrInvalidTemplate), "a failing reader yields the invalid-template sentinel and no output (nothing of the data read before the failure is used)")
 	} else {
 		checkExport(r4, e4, content, br)
 		checkExport(r5, e5, content, tr)
@@ -107,9 +110,9 @@ func VH_C19_export() {
 	rb, eb := nt.ExportWithString(text)
 	rc, ec := ne.ExportWithString(text)
 	vrt.Assert(ra == nil && only(ea, cvsserr.ErrNullPointer) && rb == nil && only(eb, cvsserr.ErrNullPointer) && rc == nil && only(ec, cvsserr.ErrNullPointer), "a nil report yields the null-pointer sentinel and no output")
-	rd, ed := nb.ExportWith(vrt.Reader(content, fails, partial))
-	re, ee := nt.ExportWith(vrt.Reader(content, fails, partial))
-	rf, ef := ne.ExportWith(vrt.Reader(content, fails, partial))
+	rd, ed := nb.ExportWith(vrt.ChunkReader(c1, c2, eofWithData, fails))
+	re, ee := nt.ExportWith(vrt.ChunkReader(c1, c2, eofWithData, fails))
+	rf, ef := ne.ExportWith(vrt.ChunkReader(c1, c2, eofWithData, fails))
 	vrt.Assert(rd == nil && re == nil && rf == nil && (only(ed, cvsserr.ErrNullPointer) || only(ed, cvsserr.ErrInvalidTemplate)) && (only(ee, cvsserr.ErrNullPointer) || only(ee, cvsserr.ErrInvalidTemplate)) && (only(ef, cvsserr.ErrNullPointer) || only(ef, cvsserr.ErrInvalidTemplate)), "a nil report with a reader yields one of the two sentinels and no output")
 	if !fails {
 		vrt.Assert(only(ed, cvsserr.ErrNullPointer) && only(ee, cvsserr.ErrNullPointer) && only(ef, cvsserr.ErrNullPointer), "a nil report with a good reader yields the null-pointer sentinel")
